@@ -198,6 +198,14 @@ def r_whole_db(ctx):
                 ctx.ok(rule, key, c.loc(), 'allowed: ' + why)
             else:
                 ctx.bad(rule, key, c.loc(), 'whole-database operation `%s` in `%s` is not confined to one index' % (op, f.path))
+    # an allowed whole-database *read* is an accessor for the caller, not an input of the library's own logic: a search or a
+    # build that consults it depends on the content of the other indexes
+    for (op, owner), why in WHOLE_ALLOWED.items():
+        if not owner.startswith('reader::'):
+            continue
+        users = [(g, x) for g in F.lib_fns() for x in g.calls() if (x.callee == owner or x.resolved == owner) and owner_path(g) != owner]
+        ctx.check(not users, rule, '%s/internal-use' % owner, users[0][1].loc() if users else '', 'the whole-database count is not used by the library itself',
+                  '`%s` (a whole-database `%s`) is consulted by %s: results of one index would depend on the other indexes of the database' % (owner, op, sorted({g.path for g, x in users})))
     ctx.ok(rule, 'scan', '', 'all heed Database operations classified', nontrivial=False)
 
 
@@ -220,3 +228,7 @@ def run(ctx):
     r_index_op(ctx)
     r_whole_db(ctx)
     r_prefix(ctx)
+    # the index only confines an operation if it survives the key codec in both directions (cursor based writes decode the
+    # key and put it back): C16's key layout clause
+    from props import C16
+    C16.r_key(ctx)
